@@ -17,11 +17,20 @@ def _entries(h, rng, n):
     region = h.session.regions[0]
     out = []
     for i in range(n):
-        kind = rng.choice(["chat", "ping", "update", "eq"])
+        kind = rng.choice(["chat", "ping", "update", "eq", "coarse"])
         if kind == "chat":
             m = Message("ChatFromViewer", Block("AgentData", AgentID=h.session.agent_id, SessionID=h.session.id),
                         Block("ChatData", Message=rng.choice(["hello", "", "foo bar", "x" * 30]), Type=rng.choice([0, 1, 2]), Channel=rng.choice([0, 5, 524])),
                         packet_id=i, direction=Direction.OUT, flags=rng.choice([0, 0x40]))
+        elif kind == "coarse":
+            # Variable blocks with 0..2 instances: present-but-empty block lists are part of the message
+            n_loc = rng.choice([0, 0, 1, 2])
+            m = Message("CoarseLocationUpdate", Block("Index", You=-1, Prey=-1), packet_id=i, direction=Direction.IN)
+            m.create_block_list("Location")
+            m.create_block_list("AgentData")
+            for k in range(n_loc):
+                m.add_block(Block("Location", X=k, Y=2, Z=3))
+                m.add_block(Block("AgentData", AgentID=UUID(int=k + 1)))
         elif kind == "ping":
             m = Message("CompletePingCheck", Block("PingID", PingID=rng.randrange(256)), packet_id=i, direction=rng.choice([Direction.IN, Direction.OUT]))
         elif kind == "update":
@@ -106,6 +115,58 @@ def bounded_filters(reg, tier, seed):
                     leaf_truth[(leaf, i)] = False
                     fail("filters/leaf-error", f"leaf {leaf!r} raised {type(ex).__name__}: {ex} on a {e.name} entry (inapplicable comparison must be false)",
                          {"filter": leaf, "entry": e.name})
+        # (1c) comparisons against a reference computed from the values themselves, on entries whose message came off the wire
+        # (text fields of such messages are byte strings that also compare with str): == / != / < / > / <= / >= on one selected field
+        from hippolyzer.lib.base.message.message import Message as _M2, Block as _B2
+        from hippolyzer.lib.base.network.transport import Direction as _D2
+        from hippolyzer.lib.base.message.udpserializer import UDPMessageSerializer as _Ser
+        from hippolyzer.lib.base.message.udpdeserializer import UDPMessageDeserializer as _Des
+        _ser, _des = _Ser(), _Des()
+        cmp_ = {"==": op_.eq, "!=": op_.ne, "<": op_.lt, ">": op_.gt, "<=": op_.le, ">=": op_.ge}
+        for text, chan in itertools.product(("hello", "foo bar", "x"), (0, 5, 524)):
+            m0 = _M2("ChatFromViewer", _B2("AgentData", AgentID=h.session.agent_id, SessionID=h.session.id),
+                     _B2("ChatData", Message=text, Type=1, Channel=chan), packet_id=900, direction=_D2.OUT)
+            for off_wire in (False, True):
+                mm = _des.deserialize(_ser.serialize(m0)) if off_wire else m0
+                if off_wire:
+                    mm.direction = _D2.OUT
+                ent = LLUDPMessageLogEntry(mm, h.session.regions[0], h.session)
+                cases = [(f"ChatFromViewer.ChatData.Message {o} '{lit}'", cmp_[o](text, lit)) for o in ("==", "!=") for lit in ("hello", "foo bar", "zzz")]
+                cases += [(f"ChatFromViewer.ChatData.Channel {o} {lit}", cmp_[o](chan, lit)) for o in cmp_ for lit in (0, 5, 6, 524)]
+                for flt, want in cases:
+                    evals += 1
+                    seen.add(("cmp", flt, text, chan, off_wire))
+                    try:
+                        node = compile_filter(flt)
+                        got = (bool(node.match(ent, True)), bool(node.match(ent, False)))
+                    except Exception as ex:  # noqa
+                        fail("filters/compare", f"{flt!r} raised {type(ex).__name__}: {ex}", {"filter": flt, "off_wire": off_wire})
+                        continue
+                    if got != (want, want):
+                        fail("filters/compare", f"{flt!r} on a message with Message={text!r} Channel={chan} ({'parsed off the wire' if off_wire else 'built in memory'}) "
+                             f"gave {got}, the comparison is {want}", {"filter": flt, "Message": text, "Channel": chan, "off_wire": off_wire})
+        # (1d) a byte-string field of a message parsed off the wire (text-or-binary fields decode to a bytes type that also compares
+        # with str): for one selected field, `!=` holds exactly when `==` does not - whatever the literal's type
+        gm = _M2("GenericMessage", _B2("AgentData", AgentID=h.session.agent_id, SessionID=h.session.id, TransactionID=UUID_ZERO()),
+                 _B2("MethodData", Method="themethod", Invoice=UUID_ZERO()), _B2("ParamList", Parameter=b"hello"), packet_id=901, direction=_D2.OUT)
+        gm2 = _des.deserialize(_ser.serialize(gm))
+        gm2.direction = _D2.OUT
+        for mm in (gm, gm2):
+            ent = LLUDPMessageLogEntry(mm, h.session.regions[0], h.session)
+            for fld in ("GenericMessage.ParamList.Parameter", "GenericMessage.MethodData.Method"):
+                for lit in ("'hello'", "'themethod'", "'zzz'", "b'hello'", "b'zzz'"):      # literals of the field's own kinds (an inapplicable one is false both ways)
+                    evals += 1
+                    seen.add(("neq", fld, lit, mm is gm2))
+                    try:
+                        eq = bool(compile_filter(f"{fld} == {lit}").match(ent, True))
+                        ne = bool(compile_filter(f"{fld} != {lit}").match(ent, True))
+                        ne2 = bool(compile_filter(f"{fld} != {lit}").match(ent, False))
+                    except Exception as ex:  # noqa
+                        fail("filters/compare", f"{fld} ==/!= {lit} raised {type(ex).__name__}: {ex}", {"field": fld, "literal": lit})
+                        continue
+                    if ne == eq or ne2 == eq:
+                        fail("filters/compare", f"{fld} == {lit} is {eq} and {fld} != {lit} is {ne} on the same entry "
+                             f"({'parsed off the wire' if mm is gm2 else 'built in memory'})", {"field": fld, "literal": lit, "off_wire": mm is gm2})
         # (1b) subfield selectors (Msg.Block.Var.Subfield) with wildcards in the subfield position: "some selected subfield
         # satisfies the comparison" - against a reference that walks the decoded subfields itself
         import fnmatch as _fn
@@ -259,7 +320,9 @@ def bounded_filters(reg, tier, seed):
                 # "preserves the logged message": same name, id, flags, direction, meta and the same datagram when encoded
                 # (LLSD notation carries vectors as arrays, so Python-level tuple/list identity is not part of the claim)
                 same = (ma.name == mb.name and ma.packet_id == mb.packet_id and int(ma.send_flags) == int(mb.send_flags)
-                        and ma.direction == mb.direction and tuple(ma.acks) == tuple(mb.acks) and ser.serialize(ma) == ser.serialize(mb))
+                        and ma.direction == mb.direction and tuple(ma.acks) == tuple(mb.acks) and ser.serialize(ma) == ser.serialize(mb)
+                        # the same block lists, empty ones included (msg["Location"] is [] before and after, not a KeyError)
+                        and {k: len(v) for k, v in ma.blocks.items()} == {k: len(v) for k, v in mb.blocks.items()})
                 if not same or a.name != b.name or a.type != b.type:
                     fail("filters/export", f"export/import changed a {a.name} entry", {"entry": a.name})
             if len(back) != len(lud):
